@@ -4,8 +4,10 @@ import PartituraModel.Model.Measures
 import PartituraModel.Model.Rests
 import PartituraModel.Model.Tuplets
 import PartituraModel.Model.Sanitize
+import PartituraModel.Model.SymConv
+import PartituraModel.Model.MeasuresDec
 
-open Wire Model Model.Dur Model.Meas Model.Rests Model.Tup Model.San
+open Wire Model Model.Dur Model.Meas Model.Rests Model.Tup Model.San Model.Conv
 
 def fmtSym (sd : Gen.SymDur) : String :=
   fmtTuple [sd.1, fmtNat sd.2.1, fmtOpt fmtNat sd.2.2.1, fmtOpt fmtNat sd.2.2.2]
@@ -33,6 +35,7 @@ def parseSymField : P (Option Est) := do
   | "N" => pure none
   | "E" => pure (some .empty)
   | "S" => do let sd ← parseSym; pure (some (.single sd))
+  | "C" => do let l ← list parseSym; pure (some (.composite l))
   | _ => P.fail
 
 def parseNote : P Note := do
@@ -127,6 +130,19 @@ def fmtTies (out : List Note) : String :=
 
 def handle (ts : List String) : String :=
   match ts with
+  | "fmtl" :: rest =>
+    -- format_symbolic_duration on a list of values (N = None, E = {}, S = one value, C = a tuple of tied values)
+    orErr <| (run (list parseSymField) rest).map fun l => fmtList (fun e => (formatSymbolic e).getD "err") l
+  | "dfsl" :: rest =>
+    -- GenericNote.duration_from_symbolic of notes [0, dur) with the stored value given, quarter duration q
+    orErr <| (run (do let q ← nat; let l ← list (do let d ← nat; let f ← parseSymField; pure (d, f)); pure (q, l)) rest).map
+      fun (q, l) => fmtList (fun (x : Nat × Option Est) =>
+        let n : Note := { key := 0, id := none, start := 0, stop := x.1, pitch := "C_N_4", voice := none, staff := none,
+                          sym := x.2, tiePrev := none, tieNext := none, slurStops := [] }
+        match durationFromSymbolic (symbolicDuration [(0, q)] n) (quarterAt [(0, q)] 0) with
+        | none => "err"
+        | some none => "nan"
+        | some (some r) => fmtRat r) l
   | "snd" :: rest =>
     -- the rows of the note array of a note list: (onset, duration_tied, midi pitch, voice, id)
     orErr <| (run (list parseNote) rest).map fun ns => fmtList fmtSoundRow (soundingMidi ns)
@@ -197,6 +213,12 @@ def handle (ts : List String) : String :=
         | .exhausted => "-"
         | .outOfFuel => "fuel"
   | "tid" :: rest => orErr <| (run str rest).map fun s => (makeTiedNoteId s).getD "-"
+  | "rok" :: rest =>
+    -- the executable side condition of the measure theorems (Props/C11Decide.lean) and its three parts
+    orErr <| (run parsePart rest).map fun p =>
+      match stretches p with
+      | none => "none"
+      | some l => fmtTuple [fmtBool (readingOKB p), fmtBool (tsOKB p), fmtBool (existingOKB p l), fmtBool (barsIntegralB p l)]
   | "addm" :: rest =>
     orErr <| (run parsePart rest).map fun p =>
       match addMeasures p (4 * (p.last - p.first) + 64) with
